@@ -328,6 +328,13 @@ static int opt_work (
 		p2 = 0;
 	}
 
+	if (p->factorok == 0)
+	{
+		/* the problem or the basis was changed since the last solve: norms and
+		 * partial pricing groups kept from it have the old dimensions */
+		EGLPNUM_TYPENAME_ILLprice_free_pricing_info (p->pricing);
+	}
+
 	if (primal_or_dual == 0)
 	{
 		if (p->factorok == 0)
